@@ -439,7 +439,9 @@ static string loopOnce(int side, bool quitQueued)
 {
   usePoller(pollerOf(side));
   std::ostringstream os;
-  g_loop->activeChannels_.clear();
+  // activeChannels_ is NOT touched by the driver: emptying it at the start of every iteration is loop()'s own job
+  // (seeded change C09_4 moved it into fillActiveChannels, which is not reached when the poll call reports nothing:
+  // the previous iteration's channels are then dispatched again).  A LOOP after which nothing is ready shows it.
   if (side == 1 && g_pp->pollfds_.empty())
   {
     os << "ok n=0 [] cb= fn=";
@@ -471,8 +473,7 @@ static string loopOnce(int side, bool quitQueued)
          << " tf=" << (g_timerFired.load() - fired0);
     }
   }
-  g_loop->activeChannels_.clear();   // may hold pointers to destroyed channels
-  return os.str();
+  return os.str();                   // activeChannels_ is left as loop() left it (see above)
 }
 
 static void resetCase()
